@@ -473,6 +473,11 @@ class Inotify:
         wd = inotify_add_watch(self._inotify_fd, path, mask)
         if wd == -1:
             Inotify._raise_error()
+        known_as = self._path_for_wd.get(wd)
+        if known_as is not None and known_as != path and self._wd_for_path.get(known_as) == wd:
+            # The kernel identifies a watch by its inode: the directory is known under another,
+            # now stale name (it was renamed and the name re-used before we got here).
+            del self._wd_for_path[known_as]
         self._wd_for_path[path] = wd
         self._path_for_wd[wd] = path
         return wd
